@@ -289,6 +289,13 @@ func tEq(a, b *Term) *Term {
 	if a == b {
 		return tTrue
 	}
+	if (isNat(a) || isNat(b)) && a.S == b.S {
+		if x, ok := natOrConst(a); ok {
+			if y, ok2 := natOrConst(b); ok2 {
+				return tEq(x, y)
+			}
+		}
+	}
 	if a.S != b.S {
 		panic(fmt.Sprintf("tEq: sort mismatch %v %v (%s vs %s)", a.S, b.S, a.smtDebug(), b.smtDebug()))
 	}
@@ -434,6 +441,22 @@ func tBVCmp(op string, a, b *Term) *Term {
 	if a.S != b.S {
 		panic(fmt.Sprintf("tBVCmp %s: sort mismatch %v %v", op, a.S, b.S))
 	}
+	if (isNat(a) || isNat(b)) && strings.HasPrefix(op, "bvu") {
+		if x, ok := natOrConst(a); ok {
+			if y, ok2 := natOrConst(b); ok2 {
+				switch op {
+				case "bvult":
+					return tIntLt(x, y)
+				case "bvugt":
+					return tIntLt(y, x)
+				case "bvule":
+					return tNot(tIntLt(y, x))
+				case "bvuge":
+					return tNot(tIntLt(x, y))
+				}
+			}
+		}
+	}
 	if a.IsConst() && b.IsConst() {
 		switch op {
 		case "bvult":
@@ -494,6 +517,9 @@ func tResize(a *Term, w int, signed bool) *Term {
 		}
 		return tBV(w, a.U)
 	}
+	if isNat(a) && w > aw && !signed {
+		return tNat(a.Args[0], w)
+	}
 	if w < aw {
 		return mkS("extract", sBV(w), fmt.Sprintf("(_ extract %d 0)", w-1), a)
 	}
@@ -538,7 +564,28 @@ func tBV2Int(a *Term) *Term {
 	if a.IsConst() {
 		return tIntConst(int64(a.U))
 	}
+	if isNat(a) {
+		return a.Args[0]
+	}
 	return mk("bv2nat", sInt, a)
+}
+
+// tNat is the bit-vector view of a mathematical integer n that is known
+// (asserted at creation) to lie in [0, 2^w).  Keeping the integer visible lets
+// equality, unsigned comparison and decimal formatting stay in the
+// integer/string theories instead of going through bv2nat.
+func tNat(n *Term, w int) *Term { return mkS("int2bv", sBV(w), "r", n) }
+
+func isNat(a *Term) bool { return a.Op == "int2bv" && a.Str == "r" }
+
+func natOrConst(a *Term) (*Term, bool) {
+	if isNat(a) {
+		return a.Args[0], true
+	}
+	if a.IsConst() && a.S.K == 'V' && a.S.W <= 64 && a.U < 1<<63 {
+		return tIntConst(int64(a.U)), true
+	}
+	return nil, false
 }
 
 func tIntToStr(a *Term) *Term {
@@ -655,6 +702,8 @@ func (p *printer) ref(t *Term) string {
 		body = fmt.Sprintf("(%s %s)", t.Str, strings.Join(args, " "))
 	case "int2bv":
 		body = fmt.Sprintf("((_ int2bv %d) %s)", t.S.W, args[0])
+	case "<", "<=":
+		body = fmt.Sprintf("(%s %s)", t.Op, strings.Join(args, " "))
 	case "to_fp_s":
 		body = fmt.Sprintf("((_ to_fp 11 53) RNE %s)", args[0])
 	case "to_fp_u":
